@@ -497,22 +497,24 @@ where
     let mut response_received = false;
     let mut task_empty = true;
 
+    // The retry times of the tasks inherited from the last connection.
+    // This should outlive a single poll or the tasks will be retried forever.
+    let mut retry_times_opt: Option<usize> = None;
+
     future::poll_fn(
         |cx: &mut Context<'_>| -> Poll<Result<(), HandleConnErr<H::Task>>> {
-            let retry_times_opt = match retry_state_opt.take() {
-                Some(RetryState {
-                    retry_times,
-                    tasks: mut retry_tasks,
-                }) => {
-                    for task in retry_tasks.iter_mut() {
-                        task.log_event(TaskEvent::WritingQueueReceived);
-                        packets.push_back(task.get_packet());
-                    }
-                    tasks.extend(retry_tasks.drain(..));
-                    Some(retry_times)
+            if let Some(RetryState {
+                retry_times,
+                tasks: mut retry_tasks,
+            }) = retry_state_opt.take()
+            {
+                for task in retry_tasks.iter_mut() {
+                    task.log_event(TaskEvent::WritingQueueReceived);
+                    packets.push_back(task.get_packet());
                 }
-                None => None,
-            };
+                tasks.extend(retry_tasks.drain(..));
+                retry_times_opt = Some(retry_times);
+            }
 
             while let Poll::Ready(task_opt) = Pin::new(&mut task_receiver).poll_next(cx) {
                 match task_opt {
